@@ -270,3 +270,23 @@ Proof.
   - apply Himp. unfold sizedb_emitted in Hs. rewrite Hg, He, Hpm in Hs. injection Hs as Hb.
     exact Hb.
 Qed.
+
+(** ** DESIGN 3.1 clause 9 as a boolean ([mono_acyclicb], Model/SizedMono.v: the monomorphic
+    by-value graph on ids, generic parameters NOT cut).  It agrees with the run-time checker on
+    every example registry, including the one with a cycle only after instantiation, where
+    [by_value_acyclicb] holds. *)
+From V Require Import Model.SizedMono.
+
+Definition mono_agree (r : registry) (s : settings) : bool :=
+  match sizedb_emitted r s with
+  | Some b => Bool.eqb b (mono_acyclicb r s)
+  | None => false
+  end.
+
+Example sz_mono_agrees :
+  forallb (fun r => mono_agree r ex_set)
+          [sz_reg_ok; sz_reg_chain; sz_reg_generic; ex_reg; ex_reg1;
+           sz_reg_bad; sz_reg_bad_tuple; sz_reg_bad_mutual; sz_reg_bad_cow; sz_reg_inst] = true /\
+  mono_agree WfExample.ex_reg WfExample.ex_set = true /\
+  mono_acyclicb sz_reg_inst ex_set = false /\ by_value_acyclicb sz_reg_inst ex_set = true.
+Proof. repeat split; vm_compute; reflexivity. Qed.
